@@ -49,8 +49,13 @@ def check(rep):
     files = [(n, d) for n, d in readcheck.canned() if len(d) < 6000 and not n.endswith(".m4s")]
     for name, r, _ in readcheck.valid_files(rng, 6 if quick else 40):
         files.append((name, bytes(r.data)))
-    # truncated files: I/O errors (after the stream has moved) interleaved with successes
     import isogen as _iso
+    # declared sample sizes adding up to 2^32 and more inside one chunk (offsets are 64-bit sums; a cached partial sum kept in 32 bits shows on a repeated call)
+    import check_c03
+    for hi, htr in enumerate(check_c03.huge_tracks()):
+        if not quick or hi % 2 == 0:
+            files.append(("huge_sizes_%d" % hi, bytes(_iso.build_movie(htr, "moov_first")[0].data)))
+    # truncated files: I/O errors (after the stream has moved) interleaved with successes
     trs = [{"id": 1, "kind": "avc", "ts": 1000, "sizes": [9, 8, 7, 6, 5, 10], "chunks": [3, 3], "deltas": [10] * 6, "cts": None, "sync": None, "co64": False},
            {"id": 2, "kind": "aac", "ts": 48000, "sizes": [4, 4, 4, 12], "chunks": [2, 2], "deltas": [1024] * 4, "cts": None, "sync": None, "co64": True}]
     rr, _, _ = _iso.build_movie(trs, "moov_first")
